@@ -172,6 +172,52 @@ struct WorkerLine {
     sample: Option<J>,
 }
 
+/// Execute one plan in a forked child of this process and return its outcome. Every run therefore
+/// starts from the same process state (the state after `main`'s fixed warm-up): nothing a run
+/// leaves behind — lazily initialised globals, per-thread generators, caches — can influence the
+/// next one, whichever worker a seed lands on, and a replay in a fresh process starts from that
+/// same state. A child that dies (abort, signal) is a harness error, never a violation.
+pub fn run_isolated(sc: &dyn Scenario, plan: &Plan) -> Outcome {
+    use std::io::Read;
+    use std::os::fd::FromRawFd;
+    let _ = std::io::stdout().flush();
+    let mut fds = [0i32; 2];
+    if unsafe { libc::pipe(fds.as_mut_ptr()) } != 0 {
+        return Outcome { harness_error: Some("pipe failed".into()), ..Default::default() };
+    }
+    let pid = unsafe { libc::fork() };
+    if pid < 0 {
+        return Outcome { harness_error: Some("fork failed".into()), ..Default::default() };
+    }
+    if pid == 0 {
+        unsafe { libc::close(fds[0]) };
+        let o = match std::panic::catch_unwind(std::panic::AssertUnwindSafe(|| sc.execute(plan))) {
+            Ok(o) => o,
+            Err(e) => {
+                let msg = e.downcast_ref::<String>().cloned().or_else(|| e.downcast_ref::<&str>().map(|s| s.to_string())).unwrap_or_else(|| "panic".into());
+                Outcome { harness_error: Some(format!("panic in run seed {}: {msg}", plan.seed)), ..Default::default() }
+            }
+        };
+        let js = serde_json::to_vec(&o).unwrap_or_default();
+        let mut f = unsafe { std::fs::File::from_raw_fd(fds[1]) };
+        let _ = f.write_all(&js);
+        let _ = f.flush();
+        drop(f);
+        unsafe { libc::_exit(0) };
+    }
+    unsafe { libc::close(fds[1]) };
+    let mut buf = vec![];
+    let mut f = unsafe { std::fs::File::from_raw_fd(fds[0]) };
+    let _ = f.read_to_end(&mut buf);
+    drop(f);
+    let mut status = 0i32;
+    unsafe { libc::waitpid(pid, &mut status, 0) };
+    match serde_json::from_slice::<Outcome>(&buf) {
+        Ok(o) => o,
+        Err(_) => Outcome { harness_error: Some(format!("run seed {} died without a result (wait status {status})", plan.seed)), ..Default::default() },
+    }
+}
+
 /// Worker: runs indices start, start+stride, … < runs; prints one JSON line per run.
 pub fn worker(sc: &dyn Scenario, tier: Tier, base: u64, start: u64, stride: u64, runs: u64, wall_cap_s: u64) {
     let t0 = Instant::now();
@@ -184,17 +230,7 @@ pub fn worker(sc: &dyn Scenario, tier: Tier, base: u64, start: u64, stride: u64,
         let seed = run_seed(base, i);
         let t1 = Instant::now();
         let plan = sc.generate(seed, tier);
-        let outcome = match std::panic::catch_unwind(std::panic::AssertUnwindSafe(|| sc.execute(&plan))) {
-            Ok(o) => o,
-            Err(e) => {
-                let msg = e
-                    .downcast_ref::<String>()
-                    .cloned()
-                    .or_else(|| e.downcast_ref::<&str>().map(|s| s.to_string()))
-                    .unwrap_or_else(|| "panic".into());
-                Outcome { harness_error: Some(format!("harness panic in run {i} seed {seed}: {msg}")), ..Default::default() }
-            }
-        };
+        let outcome = run_isolated(sc, &plan);
         let sample = if i < 3 {
             Some(json!({"seed": seed, "cfg": plan.cfg, "events": plan.events.iter().take(12).collect::<Vec<_>>(), "n_events": plan.events.len()}))
         } else {
@@ -286,10 +322,7 @@ pub fn minimise(sc: &dyn Scenario, plan: &Plan, target: &Violation, budget_s: u6
             if best.events[i..end].iter().all(|e| sc.droppable(e)) {
                 let mut cand = best.clone();
                 cand.events.drain(i..end);
-                let o = match std::panic::catch_unwind(std::panic::AssertUnwindSafe(|| sc.execute(&cand))) {
-                    Ok(o) => o,
-                    Err(_) => Outcome::default(),
-                };
+                let o = run_isolated(sc, &cand);
                 if let Some(v) = same_violation(&o, target) {
                     best = cand;
                     bestv = v;
@@ -352,7 +385,7 @@ pub fn replay(sc: &dyn Scenario, path: &str) -> i32 {
             return 2;
         }
     };
-    let o = sc.execute(&plan);
+    let o = run_isolated(sc, &plan);
     if let Some(v) = same_violation(&o, &target) {
         println!("REPRODUCED property={} oracle={} signature={:?} step={} digest={:016x}", v.property, v.oracle, v.signature, v.step, o.trace_digest);
         println!("{}", v.summary);
